@@ -85,6 +85,59 @@ class Facts:
 
 # --------------------------------------------------------------------------- node model
 
+def _pl(l, *p):
+    return {'l': l, 'p': list(p)}
+
+
+def model_body(fn, closure_id, line):
+    """Synthetic MIR (in the fact format) for standard-library combinators applied to a crate-local closure, so that a
+    refactoring from `match`/`if let` to `opt.map(|x| ..)` is analysed like the code it replaces.  Only the value flow
+    is modelled (no unwinding): Option::map, Option::and_then, Result::map."""
+    some = [{'dc': 'Some', 'v': 1}, {'f': 0, 'n': '0', 'adt': 'core::option::Option', 'ty': '?'}]
+    ok = [{'dc': 'Ok', 'v': 0}, {'f': 0, 'n': '0', 'adt': 'core::result::Result', 'ty': '?'}]
+    err = [{'dc': 'Err', 'v': 1}, {'f': 0, 'n': '0', 'adt': 'core::result::Result', 'ty': '?'}]
+
+    def asg(place, rv, pty='?'):
+        return {'k': 'assign', 'line': line, 'place': place, 'pty': pty, 'rv': rv}
+
+    def agg(adt, variant, vidx, ops):
+        return {'rv': 'agg', 'kind': 'adt', 'adt': adt, 'variant': variant, 'vidx': vidx, 'args': ['?'], 'fields': ['0'] if ops else [], 'ops': ops}
+
+    def call_closure(target):
+        return {'k': 'call', 'fn': 'core::ops::FnOnce::call_once', 'fn_full': 'core::ops::FnOnce::call_once', 'substs': ['?', '?'], 'local': False,
+                'trait': 'core::ops::FnOnce', 'method': 'call_once', 'self_ty': '?', 'args': [{'move': _pl(2)}, {'move': _pl(5)}], 'arg_tys': ['?', '?'],
+                'dest': _pl(6), 'target': target, 'unwind': None, 'fn_line': line, 'from_expansion': False, 'line': line}
+    locals_ = [{'ty': '?'}, {'ty': '?'}, {'ty': '{closure}', 'closure': closure_id}, {'ty': 'isize'}, {'ty': '?'}, {'ty': '(?,)'}, {'ty': '?'}]
+    if fn in ('core::option::Option::<T>::map', 'core::option::Option::<T>::and_then'):
+        wrap = fn.endswith('::map')
+        blocks = [
+            {'cleanup': False, 'stmts': [asg(_pl(3), {'rv': 'discr', 'place': _pl(1)}, 'isize')],
+             'term': {'k': 'switch', 'discr': {'move': _pl(3)}, 'dty': 'isize', 'targets': [['0', 1]], 'otherwise': 2, 'line': line}},
+            {'cleanup': False, 'stmts': [asg(_pl(0), agg('core::option::Option', 'None', 0, []))], 'term': {'k': 'return', 'line': line}},
+            {'cleanup': False, 'stmts': [asg(_pl(4), {'rv': 'use', 'op': {'move': _pl(1, *some)}}),
+                                         asg(_pl(5), {'rv': 'agg', 'kind': 'tuple', 'ops': [{'move': _pl(4)}]})], 'term': call_closure(3)},
+            {'cleanup': False, 'stmts': [asg(_pl(0), agg('core::option::Option', 'Some', 1, [{'move': _pl(6)}]) if wrap else {'rv': 'use', 'op': {'move': _pl(6)}})],
+             'term': {'k': 'return', 'line': line}},
+        ]
+    elif fn == 'core::result::Result::<T, E>::map':
+        blocks = [
+            {'cleanup': False, 'stmts': [asg(_pl(3), {'rv': 'discr', 'place': _pl(1)}, 'isize')],
+             'term': {'k': 'switch', 'discr': {'move': _pl(3)}, 'dty': 'isize', 'targets': [['1', 1]], 'otherwise': 2, 'line': line}},
+            {'cleanup': False, 'stmts': [asg(_pl(4), {'rv': 'use', 'op': {'move': _pl(1, *err)}}),
+                                         asg(_pl(0), agg('core::result::Result', 'Err', 1, [{'move': _pl(4)}]))], 'term': {'k': 'return', 'line': line}},
+            {'cleanup': False, 'stmts': [asg(_pl(4), {'rv': 'use', 'op': {'move': _pl(1, *ok)}}),
+                                         asg(_pl(5), {'rv': 'agg', 'kind': 'tuple', 'ops': [{'move': _pl(4)}]})], 'term': call_closure(3)},
+            {'cleanup': False, 'stmts': [asg(_pl(0), agg('core::result::Result', 'Ok', 0, [{'move': _pl(6)}]))], 'term': {'k': 'return', 'line': line}},
+        ]
+    else:
+        return None
+    return {'id': 'model:%s:%s' % (fn, closure_id), 'kind': 'Fn', 'name': fn.rsplit('::', 1)[1], 'span': '', 'root': 'model', 'from_expansion': True, 'pub': False,
+            'sig': 'model', 'generics': [], 'bounds': [], 'arg_count': 2, 'locals': locals_, 'blocks': blocks, 'model': True}
+
+
+MODELLED = ('core::option::Option::<T>::map', 'core::option::Option::<T>::and_then', 'core::result::Result::<T, E>::map')
+
+
 class Node:
     __slots__ = ('id', 'ctx', 'bb', 'idx', 'kind', 'd', 'succ', 'pred', 'inl', 'switch_edges')
 
@@ -290,6 +343,12 @@ class Super:
                 tgt = t.get('target')
                 body, via = self._callee_body(t)
                 closure_env = None
+                if body is None and self.inline_closures and t.get('fn') in MODELLED and len(t['args']) == 2:
+                    a1 = t['args'][1]
+                    pl1 = a1.get('move') or a1.get('copy')
+                    clo1 = c.fn['locals'][pl1['l']].get('closure') if (pl1 is not None and not pl1['p']) else None
+                    if clo1 and clo1 in self.facts.bodies:
+                        body, via = model_body(t['fn'], clo1, t.get('line', 0)), 'model'
                 if body is None and self.inline_closures and t.get('trait') in (
                         'core::ops::FnOnce', 'core::ops::FnMut', 'core::ops::Fn'):
                     # closure call: find closure type of arg0 local
@@ -1150,6 +1209,13 @@ def deep_subterms(S, t, depth=4, _seen=None):
             if (cx, l) in _seen:
                 continue
             _seen.add((cx, l))
+            # a parameter of an inlined callee that is only borrowed there: its value is the caller's argument
+            c_ = S.sg.ctxs[cx]
+            if c_.parent is not None and 1 <= l <= c_.fn['arg_count'] and not any(not part for _, part in S.defs.get((cx, l), [])):
+                pv = S.param_value(cx, l)
+                if pv is not None and pv[0] != 'unknown':
+                    for y in deep_subterms(S, pv, depth - 1, _seen):
+                        yield y
             for dn, part in S.defs.get((cx, l), []):
                 v = None
                 nd = S.sg.nodes[dn]
